@@ -12,6 +12,8 @@ import RdestModel.Props.C12
 import RdestModel.Lemmas.Loop
 import RdestModel.Lemmas.NoCancel
 import RdestModel.Props.C01
+import RdestModel.Props.C11
+import RdestModel.Lemmas.HaveRange
 set_option linter.unusedSimpArgs false
 set_option linter.unusedVariables false
 namespace Rdest.Props.C12
@@ -203,6 +205,180 @@ theorem T9_whole_client_manager_never_panics_partial (T : Torrent) (sha1 : Bytes
   obtain ⟨s', r, hok, _⟩ := step_inv_w S.m (T6_whole_client_invariant T sha1 S h) ev hen
   rw [hok] at hpanic; cases hpanic
 
+theorem handlePiece_pieces (st : List Status) (p : MPeer) (c : Option Nat) : (handlePiece st p c).2.1.pieces = p.pieces := by
+  unfold handlePiece
+  cases c with
+  | none => rfl
+  | some x => dsimp only; split <;> rfl
+
+theorem peers_len_of_ok (s s' : MState) (ev : Ev) (r : Reply) (h : mstep s ev = .ok s' r) (L : Nat)
+    (hl : ∀ p ∈ s.peers, p.pieces.length = L) (hadd : ∀ a n, ev = .add a n → n = L) :
+    ∀ q ∈ s'.peers, q.pieces.length = L := by
+  have close : ∀ (a : Nat) (p : MPeer), findPeer s a = some p → ∀ (st : List Status) (q0 : MPeer), q0.pieces.length = L →
+      ∀ q ∈ setPeer s q0, q.pieces.length = L := by
+    intro a p hp st q0 hq0 q hq
+    rcases mem_setPeer s q0 q hq with rfl | ⟨hm, _⟩
+    · exact hq0
+    · exact hl q hm
+  cases ev with
+  | add a n =>
+    simp only [mstep, Out.ok.injEq] at h
+    obtain ⟨rfl, _⟩ := h
+    intro q hq
+    simp only [List.mem_cons] at hq
+    rcases hq with rfl | hq
+    · simp [hadd a n rfl]
+    · exact hl q (List.mem_filter.mp hq).1
+  | kill a =>
+    cases hp : findPeer s a with
+    | none => simp only [mstep, hp, Out.ok.injEq] at h; obtain ⟨rfl, _⟩ := h; exact hl
+    | some p =>
+      simp only [mstep, hp, Out.ok.injEq] at h; obtain ⟨rfl, _⟩ := h
+      intro q hq; exact hl q (List.mem_filter.mp hq).1
+  | choke a =>
+    cases hp : findPeer s a with
+    | none => simp [mstep, hp] at h
+    | some p =>
+      have hpl := hl p (findPeer_some hp).1
+      simp only [mstep, hp, Out.ok.injEq] at h; obtain ⟨rfl, _⟩ := h
+      exact close a p hp [] _ hpl
+  | interested a =>
+    cases hp : findPeer s a with
+    | none => simp [mstep, hp] at h
+    | some p =>
+      have hpl := hl p (findPeer_some hp).1
+      simp only [mstep, hp, Out.ok.injEq] at h; obtain ⟨rfl, _⟩ := h
+      exact close a p hp [] _ hpl
+  | notInterested a c =>
+    cases hp : findPeer s a with
+    | none => simp [mstep, hp] at h
+    | some p =>
+      have hpl := hl p (findPeer_some hp).1
+      simp only [mstep, hp, Out.ok.injEq] at h; obtain ⟨rfl, _⟩ := h
+      exact close a p hp [] _ hpl
+  | unchoke a c =>
+    cases hp : findPeer s a with
+    | none => simp [mstep, hp] at h
+    | some p =>
+      have hpl := hl p (findPeer_some hp).1
+      simp only [mstep, hp] at h
+      cases c <;> (simp only [Out.ok.injEq] at h; obtain ⟨rfl, _⟩ := h; exact close a p hp [] _ hpl)
+  | bitfield a bits c =>
+    cases hp : findPeer s a with
+    | none => simp [mstep, hp] at h
+    | some p =>
+      have hpl := hl p (findPeer_some hp).1
+      simp only [mstep, hp] at h
+      split at h
+      · cases h
+      · rename_i hne
+        simp only [Out.ok.injEq] at h; obtain ⟨rfl, _⟩ := h
+        refine close a p hp [] _ ?_
+        simp only [ne_eq, Decidable.not_not] at hne
+        simp [hne, hpl]
+  | «have» a i c =>
+    cases hp : findPeer s a with
+    | none => simp [mstep, hp] at h
+    | some p =>
+      have hpl := hl p (findPeer_some hp).1
+      simp only [mstep, hp] at h
+      repeat' split at h
+      all_goals first
+        | (simp only [Out.ok.injEq] at h; obtain ⟨rfl, _⟩ := h; exact close a p hp [] _ (by simp [hpl]))
+        | cases h
+  | pieceDone a c =>
+    cases hp : findPeer s a with
+    | none => simp [mstep, hp] at h
+    | some p =>
+      have hpl := hl p (findPeer_some hp).1
+      simp only [mstep, hp] at h
+      split at h
+      · cases h
+      · simp only [Out.ok.injEq] at h; obtain ⟨rfl, _⟩ := h
+        exact close a p hp [] _ (by rw [handlePiece_pieces]; exact hpl)
+  | pieceCancel a c =>
+    cases hp : findPeer s a with
+    | none => simp [mstep, hp] at h
+    | some p =>
+      have hpl := hl p (findPeer_some hp).1
+      simp only [mstep, hp] at h
+      split at h
+      · cases h
+      · simp only [Out.ok.injEq] at h; obtain ⟨rfl, _⟩ := h
+        exact close a p hp [] _ (by rw [handlePiece_pieces]; exact hpl)
+
+/-- Every record's bit vector has as many bits as there are pieces. -/
+def LenOk (m : MState) : Prop := ∀ p ∈ m.peers, p.pieces.length = m.statuses.length
+
+theorem lenOk_of_ok (s s' : MState) (ev : Ev) (r : Reply) (h : mstep s ev = .ok s' r) (hl : LenOk s)
+    (hadd : ∀ a n, ev = .add a n → n = s.statuses.length) : LenOk s' := by
+  intro q hq
+  rw [Rdest.Props.C11.mstep_length s s' ev r h]
+  exact peers_len_of_ok s s' ev r h _ hl hadd q hq
+
+theorem handled_len (T : Torrent) (a : Nat) (m m1 : MState) (cs : List Cmd) (rep : Rep) (hl : LenOk m)
+    (hH : Handled T a m cs rep m1) : LenOk m1 := by
+  cases cs with
+  | nil => rw [show m1 = m from hH]; exact hl
+  | cons c rest =>
+    cases rest with
+    | cons c2 r2 => cases c <;> simp [Handled] at hH
+    | nil =>
+      cases c with
+      | init pid => rw [show m1 = m from hH]; exact hl
+      | recvRequest idx => rw [show m1 = m from hH]; exact hl
+      | recvChoke => exact lenOk_of_ok m m1 _ _ hH hl (by intro b n h; cases h)
+      | recvInterested => exact lenOk_of_ok m m1 _ _ hH hl (by intro b n h; cases h)
+      | recvUnchoke => obtain ⟨_, _, hm, _⟩ := hH; exact lenOk_of_ok m m1 _ _ hm hl (by intro b n h; cases h)
+      | recvNotInterested => obtain ⟨_, _, hm, _⟩ := hH; exact lenOk_of_ok m m1 _ _ hm hl (by intro b n h; cases h)
+      | recvHave j => obtain ⟨_, _, hm, _⟩ := hH; exact lenOk_of_ok m m1 _ _ hm hl (by intro b n h; cases h)
+      | recvBitfield bs => obtain ⟨_, _, _, hm, _⟩ := hH; exact lenOk_of_ok m m1 _ _ hm hl (by intro b n h; cases h)
+      | pieceCancel => obtain ⟨_, _, hm, _⟩ := hH; exact lenOk_of_ok m m1 _ _ hm hl (by intro b n h; cases h)
+      | pieceDone => obtain ⟨_, _, hm, _⟩ := hH; exact lenOk_of_ok m m1 _ _ hm hl (by intro b n h; cases h)
+
+theorem afterEnd_len (a : Nat) (e : Option Bool) (m : MState) (hl : LenOk m) : LenOk (afterEnd a e m) := by
+  unfold afterEnd
+  cases e with
+  | none => exact hl
+  | some b =>
+    dsimp only
+    cases hk : mstep m (.kill a) with
+    | panic w => exact hl
+    | ok m' r => exact lenOk_of_ok m m' _ r hk hl (by intro b n h; cases h)
+
+theorem lenOk_reach (T : Torrent) (sha1 : Bytes → Bytes) (S : Sys) (h : SysReach T sha1 S) : LenOk S.m := by
+  induction h with
+  | init n dead hdead => intro p hp; cases hp
+  | step S S' _ hs ih =>
+    cases hs with
+    | connect a t m' hnone hfresh hadd =>
+      exact lenOk_of_ok S.m m' _ _ hadd ih (by intro b n h; cases h; rfl)
+    | own a d inp m' t' outs hl =>
+      obtain ⟨e, m1, _, hH, rfl⟩ := hl
+      exact afterEnd_len a e m1 (handled_len T a S.m m1 _ _ ih hH)
+
+/-- **T9 (whole client, "no sequence of peer events makes the manager panic").** As the partial statement above, with
+    the Have index bound *derived*: a task sends `RecvHave i` only after checking `i` against its `pieces_num`
+    (`recvHave_in_range`, Lemmas/HaveRange), and every record's bit vector has as many bits as there are pieces in every
+    reachable state (`lenOk_reach`). What remains as premises is configuration, not behaviour: the task was created with
+    the torrent's piece count (`hnum`; `PeerHandler::new(…, pieces_num, …)` and `Session::new` both take
+    `Metainfo::pieces_num()`), and the manager decodes a bitfield to that many bits (`hbits`). -/
+theorem T9_whole_client_manager_never_panics (T : Torrent) (sha1 : Bytes → Bytes) (S : Sys) (h : SysReach T sha1 S)
+    (a : Nat) (d : Option (Bytes × Bytes)) (inp : HIn) (t' : HState) (outs : List HOut) (e : Option Bool)
+    (hal : (S.tasks a).alive = true) (hnum : (S.tasks a).piecesNum = S.m.statuses.length)
+    (hh : hstep sha1 (diskOf d) (S.tasks a) inp = some (t', outs, e))
+    (c : Cmd) (hc : c ∈ cmdsOf outs) (chosen : Option Nat) (bits : Pieces) (ev : Ev) (hev : evOfCmd a chosen bits c = some ev)
+    (hbits : ∀ bs, c = .recvBitfield bs → bits.length = S.m.statuses.length) :
+    ∀ why, mstep S.m ev ≠ .panic why := by
+  refine T9_whole_client_manager_never_panics_partial T sha1 S h a d inp t' outs e hal hh c hc chosen bits ev hev ?_
+  intro p hp
+  have hpl := lenOk_reach T sha1 S h p (findPeer_some hp).1
+  refine ⟨?_, ?_⟩
+  · intro i hi; subst hi
+    have := recvHave_in_range sha1 (diskOf d) (S.tasks a) inp t' outs e hh i hc
+    omega
+  · intro bs hb; rw [hpl]; exact hbits bs hb
+
 /-- Non-vacuity (test): a reachable state of the whole client with a `Reserved` piece — one connection: handshake,
     `Interested`, `Unchoke` answered with a request for piece 0. -/
 example : ∃ S, SysReach ⟨[[7]], fun _ => 1⟩ id S ∧ S.m.statuses[0]? = some (.reserved 1) := by
@@ -221,6 +397,7 @@ example : ∃ S, SysReach ⟨[[7]], fun _ => 1⟩ id S ∧ S.m.statuses[0]? = so
 /-- Non-vacuity (test) for T9: in that state the live task of connection 0, told by broadcast that piece 0 is owned,
     sends `PieceCancel` — a command whose handling would panic without an assignment on record. -/
 example : ∃ (S : Sys) (t' : HState) (outs : List HOut), SysReach ⟨[[7]], fun _ => 1⟩ id S ∧ (S.tasks 0).alive = true ∧
+    (S.tasks 0).piecesNum = S.m.statuses.length ∧
     hstep id (diskOf none) (S.tasks 0) (.bcHave 0 .ignore) = some (t', outs, none) ∧ Cmd.pieceCancel ∈ cmdsOf outs := by
   let T : Torrent := ⟨[[7]], fun _ => 1⟩
   let t0 : HState := { infoHash := [1], ownId := [2], piecesNum := 1 }
@@ -232,7 +409,7 @@ example : ∃ (S : Sys) (t' : HState) (outs : List HOut), SysReach ⟨[[7]], fun
     ⟨_, _, rfl, (by show mstep _ _ = _; exact rfl), rfl⟩)
   have r4 := SysReach.step _ _ r3 (SysStep.own _ 0 none (.frame .unchoke (.req { index := 0, length := 1, hash := [7] } true)) _ _ _
     ⟨_, _, rfl, (by show ∃ chosen r, mstep _ _ = _ ∧ _ = _; exact ⟨some 0, _, rfl, rfl⟩), rfl⟩)
-  exact ⟨_, _, _, r4, rfl, rfl, by decide⟩
+  exact ⟨_, _, _, r4, rfl, rfl, rfl, by decide⟩
 
 end Whole
 
